@@ -36,7 +36,8 @@ CROSS = {
             ("C06", "R3_booking_side", "fee growth booked on the wrong token is credited in the wrong token")],
     "C08": [("C16", "R3_reposition_info", "the caller's maxima bound what a reposition may take, whichever way the net transfer goes"),
             ("C02", "R5_exact_remainders", "deposits are rounded up through the same remainder tests")],
-    "C09": [("C08", "R1_case_split", "every price a position is valued at comes from the one tick-to-price function")],
+    "C09": [("C10", "R5_loop_cursor", "the tick index the swap stores with a price is the tick of that price (or the crossed tick's neighbour), computed by the one inverse"),
+            ("C08", "R1_case_split", "every price a position is valued at comes from the one tick-to-price function")],
     "C10": [("C13", "R5_shared_checks", "fixed and dynamic arrays must refuse the same lookups"),
             ("C05", "R5_crossing", "an initialised tick the swap reaches is crossed, whatever else the step did")],
     "C11": [("C04", "R1e_mutated_accounts_are_mut", "reward growth and timestamps that are not written back stay stale"),
